@@ -563,7 +563,9 @@ where
                             match &*attr_name {
                                 "class" if !is_component => has_class_binding = true,
                                 "style" if !is_component => has_style_binding = true,
-                                "key" | "on" | "ref" => {}
+                                "key" | "ref" => {}
+                                // handled below: becomes merged listeners
+                                "on" | "nativeOn" if self.options.transform_on => {}
                                 _ => {
                                     dynamic_props.insert(attr_name.clone());
                                 }
@@ -573,6 +575,8 @@ where
                         if self.options.transform_on
                             && (attr_name == "on" || attr_name == "nativeOn")
                         {
+                            // the listeners' names are unknown here
+                            has_dynamic_keys = true;
                             merge_args.push(Expr::Call(CallExpr {
                                 span: DUMMY_SP,
                                 callee: Callee::Expr(Box::new(Expr::Ident(
